@@ -21,7 +21,9 @@ def family(thorough):
             preds.append('%s %s k' % (c1, op))
         preds += ['k >= %s AND k < %s' % (c0, c2), 'k > %s AND k <= %s' % (c0, c1), 'k > %s AND k > %s' % (c0, c1), 'k < %s AND k < %s' % (c2, c1),
                   'k > %s AND v = 1' % c0, 'v = 1 AND k <= %s' % c1, 'k = %s OR v = 0' % c1, 'k > %s AND v > 0 AND k < %s' % (c0, c2),
-                  'k > NULL', 'k = NULL', 'NOT (k > %s)' % c1, 'k <> %s' % c1, 'k >= %s AND k <= %s' % (c1, c1)]
+                  'k > NULL', 'k = NULL', 'NOT (k > %s)' % c1, 'k <> %s' % c1, 'k >= %s AND k <= %s' % (c1, c1),
+                  # contradictory and degenerate ranges
+                  'k > %s AND k < %s' % (c1, c0), 'k < %s AND k > %s' % (c0, c1), 'k >= %s AND k < %s' % (c2, c2), 'k = %s AND k = %s' % (c1, c2), 'k > %s AND k < %s AND v > 1' % (c1, c0)]
         if ty == 'I' and thorough:
             preds += ['k + 1 > 1', 'k > 0 + 1', 'k > v', 'k BETWEEN 0 AND 1', 'k IN (0, 1)']
         sels = ['k, v', 'v, k', 'v', 'k', '*'] if thorough else ['k, v', 'v', '*']
